@@ -75,6 +75,9 @@ class Prop(PropBase):
         span = max(abs(unit_top), abs(unit_bot)) or 1.0
         dmv = case["sign"] * case["target"] / span
         DM = pb.DM(dmv)
+        # the same dispersion measure held in another unit (every third case): results must not depend on it
+        if case.get("seed", 0) % 3 == 1:
+            DM = DM.to(u.pc / u.m**3) if case.get("seed", 0) % 2 else DM.si
         dtop = float(DM.sample_delay(z.max_freq, r, z.sample_rate))
         dbot = float(DM.sample_delay(z.min_freq, r, z.sample_rate))
         out = {"dm": X.rat(X.frac(dmv)), "dtop": X.rat(X.frac(dtop)), "dbot": X.rat(X.frac(dbot)),
